@@ -1,7 +1,8 @@
 """C09 - the battle summary is a faithful function of the recorded events."""
 import os, json, random, tempfile, shutil, traceback
-from tools import common, battle, recordings
-LEVEL = 'other'
+from tools import common, battle, recordings, gen_controllers, summarycheck
+from tools.gen_const import GEN_DIR
+LEVEL = 'proof'
 
 
 def removeprefix(s, p): return s[len(p):] if s.startswith(p) else s
@@ -30,15 +31,56 @@ def compare(b, h, v):
     return out
 
 
+def translate(ctx):
+    """the controllers of the working tree as programs of Summary.v's handler language, and their instance theorems"""
+    ts = gen_controllers.translate_all()
+    un = [(t['version'], k, v) for t in ts for k, v in t['untranslated'].items()]; pr = [(t['version'], p) for t in ts for p in t['problems']]
+    ctx.obligation('translator gen_controllers: every subscribed handler, players_info.py and get_info of all %d bundled wows controllers translated' % len(ts),
+                   not un and not pr, json.dumps((un + pr)[:6]))
+    bad_opaque = [(t['version'], k, v) for t in ts for k, v in t['opaque'].items()
+                  if not k.startswith('subscribe_') and v not in gen_controllers.OPAQUE.get({'Avatar_receiveDamageStat': 'receiveDamageStat'}.get(k, k), {}).get('sha', [])]
+    ctx.obligation('handlers outside the model are the pinned ones (receiveDamageStat: writes only _damage_map, which the model does not report)', not bad_opaque, json.dumps(bad_opaque[:5]))
+    g, i, missing = gen_controllers.coq_files(ts)
+    ctx.obligation('every distinct controller program has the counting-loop damage handler and the single-append death handler the section theorems speak about',
+                   not missing, json.dumps(missing[:5]))
+    with common.Lock('gen'):
+        os.makedirs(GEN_DIR, exist_ok=True)
+        open(os.path.join(GEN_DIR, 'GenC09.v'), 'w').write(g); open(os.path.join(GEN_DIR, 'Inst_C09.v'), 'w').write(i)
+        ok, out = common.coqc(os.path.join(GEN_DIR, 'GenC09.v'), extra_q=[(GEN_DIR, 'Gen')])
+        ctx.obligation('generated GenC09.v (the translated programs) compiles', ok, out[-400:])
+        if ok: ctx.coq_props(os.path.join(GEN_DIR, 'Inst_C09.v'), extra_q=[(GEN_DIR, 'Gen')])
+    ctx.extra['controller_programs'] = dict(versions=len(ts), distinct=len(set(gen_controllers.ctl_digest(t) for t in ts)))
+    return {t['version']: t for t in ts}
+
+
+def model_vs_library(ctx, path, what, strict=True):
+    """the translated program run by the extracted interpreter on the calls this replay delivers, against the controller's own summary"""
+    try: r = summarycheck.check_replay(path, strict)
+    except Exception as ex:
+        ctx.count('summary-tie:not-run:' + type(ex).__name__); return None
+    ctx.traces_validated += 1; ctx.count('summary-tie:events', r['events'])
+    for u in r['unsure']: ctx.count('summary-tie:excluded:' + u.split(':')[0])
+    if r['diffs']:
+        k, m, l = r['diffs'][0]
+        return dict(kind='library-vs-model-summary', what=what, version=r['version'], field=k, model=m, implementation=l, events=r['events'],
+                    how='tools/summarycheck.check_replay(file): records every call delivered to the controller, runs the translated program (modelrun summary), compares with get_info()')
+    return None
+
+
 def run(ctx):
     ctx.rule = ('every bundled wows version x synthetic battles (roster incl. a mid-battle join and a later roster update, repeated deaths, several damage '
-                'batches per victim/attacker, repeated achievements/ribbons/plane kills, with and without battle end, two map names) encoded against that '
-                'version\'s own definitions (index maps from the extracted model) and packet numbering, parsed by ReplayParser(strict=True); wot/wowp: '
-                'player, map, tracer calls; non-trivial = every battle; distinct by (version, variant)')
-    ctx.extra['explanation'] = ('Level "other": the summary functions of the 82 controllers are Python code operating on unpickled objects; no Gallina model of them is '
-                                'proved. What is checked is exhaustive over the bundled versions: the expected fields are computed by the generator from the events it '
-                                'encodes (independently of the library: index maps and types come from the extracted Coq model, the container from the extracted writer) and '
-                                'compared field by field with get_info()["hidden"]; the event decoding underneath is covered by the C03/C05/C07 theorems and ties.')
+                'batches per victim/attacker with a repeated attacker inside one batch, repeated achievements/ribbons/plane kills, with and without battle end, two map names) '
+                'encoded against that version\'s own definitions (index maps from the extracted model) and packet numbering, parsed by ReplayParser(strict=True); '
+                'each summary compared (a) with what the generator put into the stream and (b) with the TRANSLATED controller program run by the extracted interpreter on '
+                'the calls the replay delivers; the same (b) on real recordings; wot/wowp: player, map, tracer calls; non-trivial = every battle; distinct by (version, variant)')
+    ctx.extra['explanation'] = ('The event-driven part of the 76 wows controllers (deaths, damage totals, plane/achievement/ribbon counts, roster merge, arena/player ids, map name, '
+                                'old-style battle result) is TRANSLATED from the working tree into the handler language of Summary.v on every run; the theorems (Props/C09.v) are about '
+                                'its interpreter and are instantiated for every distinct program (Inst_C09.v). Modelled, not proved: fields get_info() derives from the final world '
+                                '(ribbons of newer versions, crew, tasks, control points, new-style battle result inputs), receiveDamageStat (_damage_map), the wot/wowp controllers; '
+                                'CPython pickle is an oracle (the harness unpickles roster blobs with the encoding the handler names); floats are added exactly, histories where '
+                                'CPython would round are excluded and counted.')
+    ctx.coq_props('Props/C09.v')
+    progs = translate(ctx)
     known_c10 = set(); known_end = set()
     for k in common.load_known('C10'):
         for p in k.get('pairs', []):
@@ -67,16 +109,24 @@ def run(ctx):
                                        how='tools/battle.write_wows(path, version, rng, **variant); ReplayParser(path, strict=True).get_info()'))
                     os.unlink(p); continue
                 diffs = compare(b, h, v)
+                mv = model_vs_library(ctx, p, 'synthetic battle %s variant %d' % (v, vi))
+                if mv and len(ctx.violations) < 4: ctx.violation(dict(mv, variant=kw))
                 if len(ctx.samples) < 2: ctx.sample(dict(version=v, variant=kw, summary={k: h.get(k) for k in ('map', 'player_id', 'death_map', 'shots_damage_map', 'achievements', 'ribbons', 'battle_result')}))
                 for field, want, got in diffs:
                     if field == 'map' and got == b.expect['map_raw'].lstrip('spaces/'):
                         ctx.deviation('map-lstrip', {'class': 'map-lstrip'}, dict(kind='summary-field', version='wows/' + v, field=field, expected=want, implementation=got,
                                       how='map packet carrying "%s"' % b.expect['map_raw']))
-                    else:
+                    elif len(ctx.violations) < 4:
                         ctx.violation(dict(kind='summary-field', version='wows/' + v, variant=kw, field=field, expected=want, implementation=got,
                                            how='tools/battle.write_wows(path, "%s", random.Random(seed), **variant); ReplayParser(path, strict=True).get_info()["hidden"]' % v))
                         break
                 os.unlink(p)
+        # real recordings: the translated program against the controller on everything a real battle delivers
+        recs = [f for f in recordings.list_recordings() if f.endswith('.wowsreplay') and os.path.getsize(f) > 1000]
+        for f in (recs[::9] if ctx.tier == 'quick' else recs):
+            ctx.case(('recording', os.path.basename(f))); ctx.count('game:wows-recording')
+            mv = model_vs_library(ctx, f, 'recording ' + os.path.basename(f), strict=False)
+            if mv and len(ctx.violations) < 6: ctx.violation(dict(mv, file=f))
         for game, vs in (('wot', ['1_8_0', '1_10_0']), ('wowp', ['1_7_5', '2_1_17', '2_1_20'])):
             for v in vs:
                 for mname in ('spaces/05_prohorovka', 'spaces/s01_x'):
